@@ -347,6 +347,11 @@ class ConstrainedFitness(Fitness):
 
         return super(ConstrainedFitness, self).dominates(other)
 
+    def __deepcopy__(self, memo):
+        copy_ = super(ConstrainedFitness, self).__deepcopy__(memo)
+        copy_.constraint_violation = deepcopy(self.constraint_violation, memo)
+        return copy_
+
     def __str__(self):
         """Return the values of the Fitness object."""
         return str((self.values if self.valid else tuple(), self.constraint_violation))
